@@ -45,6 +45,10 @@ Enabled(c, s) ==
                              /\ \/ Has(Toks(c)[i], "plain-content")
                                 \/ Has(Toks(c)[i], "quotes-only-content") /\ s.w \in {"single", "double"}
                              /\ (s.w \in {"triple-single", "triple-double"} => Has(Toks(c)[i], "string-value-context"))
+    \* the whole file saved with CRLF line endings (also inside multi-line string literals: the file is the same program)
+    [] s.a = "FileLineEndings" -> s.w = "crlf"
+    \* blanks on an attribute line `//?: key: value` (after the value, after the colons) and CRLF at its end; only for sources that have one
+    [] s.a = "AttributeSpacing" -> Cases[c].hasAttribute /\ s.w \in {"trailing-spaces", "trailing-tab", "spaces-after-colon", "crlf-line", "blank-line-after"}
     [] OTHER -> FALSE
 
 Init == cid \in 1..Len(Cases) /\ l = 0 /\ st = IF Cases[cid].baseStatus = "ok" THEN "ok" ELSE "seed-rejected"
